@@ -60,7 +60,11 @@ func genC08(t *rapid.T) C08Case {
 	// one source uses a large unsorted list constant next to a small literal: operators that
 	// work on lists (at fold time too) must not rearrange the caller's constant
 	if rapid.IntRange(0, 2).Draw(t, "bigconst") == 0 {
-		tr := m.Op("or", m.Op("overlap", m.NamedConst("KBIG", nil), m.Const([]int64{3, 1, 2})), m.Op("in", m.Const(int64(5)), m.NamedConst("KBIG", nil)))
+		lit := []int64{3, 1, 2}
+		if rapid.Bool().Draw(t, "longlit") { // the constant is then the shorter operand
+			lit = bigInts(150)
+		}
+		tr := m.Op("or", m.Op("overlap", m.NamedConst("KBIG", nil), m.Const(lit)), m.Op("in", m.Const(int64(5)), m.NamedConst("KBIG", nil)), m.Op("overlap", m.Const(lit), m.NamedConst("KBIG", nil)))
 		trees = append(trees, tr)
 		all.Kids = append(all.Kids, tr)
 		ns++
